@@ -86,7 +86,7 @@ func init() {
 		Rule: "case kinds by k mod 4: (0) Node: a fully populated base node (every schema field, nested persons with contacts, external references with hashes; separator-free text), a permuted presentation of it, and for EVERY mutation site enumerated by reflection " +
 			"(each field path incl. nested persons/contacts/external references/hashes/authority, dates +7 s; nanos changes must stay equal) a single-attribute mutant: reflexivity, symmetry, transitivity, Equal<=>Checksum equality, permutation invariance, mutant unequal; " +
 			"(1) Edge triples the same way; (2) NodeList: permuted nodes/edges/targets/roots equal, single-attribute mutants of any node, edge, root unequal; (3) random pairs/triples with arbitrary text (TEXT_ANY) for the equivalence laws and Equal<=>Checksum, " +
-			"plus the crafted separator-collision pairs of the known finding. After the mutants, the SAME node (and list) value is compared and hashed, changed in place and asked again: the answers must equal those for a fresh copy of the changed value. distinct = hash of (kind, base value, mutation path); non-trivial = mutant at a nested path or permutation of >=2 elements.",
+			"plus the crafted separator-collision pairs of the known finding; pairs differing only in how often one entry of a list occurs (Equal and checksum equality must agree). After the mutants, the SAME node (and list) value is compared and hashed, changed in place and asked again: the answers must equal those for a fresh copy of the changed value. distinct = hash of (kind, base value, mutation path); non-trivial = mutant at a nested path or permutation of >=2 elements.",
 		Assumptions: []string{"verdict cases use separator-free text without digits in map values (known finding flatstring-separator-collision covers the rest)", "multiset changes of list attributes and the order of a person's contacts are not judged"},
 		NCases: func(tier string) int {
 			if tier == "thorough" {
@@ -287,6 +287,49 @@ func c13Extra(c *core.C, base *sbom.Node) bool {
 		c.Cover("texts-that-read-as-formatting-directives")
 		if a.Equal(b) || b.Equal(a) || a.Checksum() == b.Checksum() {
 			c.Violatef("node-mutant-equal:"+mu.FieldPath()+":formatting-directive", map[string]any{"path": mu.String(), "values": pr}, "nodes whose %s is %q and %q compare equal (or hash alike)", mu.String(), pr[0], pr[1])
+			return false
+		}
+	}
+	// multiplicities: the same list with two (or three) further copies of one of its entries. Which verdict is right
+	// for a changed multiplicity is not judged (see assumptions), but Equal and the checksums must give the same one.
+	for _, name := range []string{"suppliers", "originators", "external_references", "licenses", "attribution", "file_types"} {
+		fd := base.ProtoReflect().Descriptor().Fields().ByName(protoreflect.Name(name))
+		if fd == nil || !fd.IsList() || base.ProtoReflect().Get(fd).List().Len() == 0 {
+			continue
+		}
+		a, b := gen.Clone(base), gen.Clone(base)
+		l := b.ProtoReflect().Mutable(fd).List()
+		pick := r.Intn(l.Len())
+		extra := 2 + r.Intn(2)
+		for j := 0; j < extra; j++ {
+			if fd.Kind() == protoreflect.MessageKind {
+				l.Append(protoreflect.ValueOfMessage(proto.Clone(l.Get(pick).Message().Interface()).ProtoReflect()))
+			} else {
+				l.Append(l.Get(pick))
+			}
+		}
+		if extra == 2 && r.Intn(2) == 0 {
+			// or: the list without the entry against the list holding it twice
+			la := a.ProtoReflect().Mutable(fd).List()
+			keep := []protoreflect.Value{}
+			for j := 0; j < la.Len(); j++ {
+				if j != pick {
+					keep = append(keep, la.Get(j))
+				}
+			}
+			la.Truncate(0)
+			for _, v := range keep {
+				la.Append(v)
+			}
+			lb := b.ProtoReflect().Mutable(fd).List()
+			lb.Truncate(lb.Len() - 1)
+		}
+		c.Evals(2)
+		c.Cover("entry-multiplicity-pairs:" + name)
+		e1, e2 := a.Equal(b), b.Equal(a)
+		cs := a.Checksum() == b.Checksum()
+		if e1 != e2 || e1 != cs {
+			c.Violatef("node-equal-checksum-disagree:multiplicity:"+name, map[string]any{"field": name, "extra": extra}, "nodes whose %s differ only in how often one entry occurs: Equal=%v/%v but checksum equality=%v", name, e1, e2, cs)
 			return false
 		}
 	}
